@@ -765,8 +765,92 @@ fn c09_classify_loaded(ctx: &mut Ctx, lo: u64, hi: u64, step: u64) {
     }
 }
 
+/// One case of unit system-call-reads; returns the violation text.
+pub fn syscall_read_case(ctx: &mut Ctx, arg: u32, buf: u32, len: u32) -> Option<String> {
+    let pc = dom::CODE_RAM;
+    let mut c = Case::new(pc, &[0x57, 0x00]);
+    c.er = dom::background_regs();
+    c.er[0] = 104;
+    c.er[1] = arg;
+    c.er[7] = 0x00ffe700;
+    let code = c.code;
+    ctx.m.poke_bytes(pc, &code);
+    ctx.m.poke_bytes(arg, &1u32.to_be_bytes());
+    ctx.m.poke_bytes(arg.wrapping_add(4), &buf.to_be_bytes());
+    ctx.m.poke_bytes(arg.wrapping_add(8), &len.to_be_bytes());
+    let text: Vec<u8> = (0..len).map(|k| b'a' + (k as u8 % 26)).collect();
+    for (k, &b) in text.iter().enumerate() {
+        let a = buf.wrapping_add(k as u32);
+        if a <= 0xffffff {
+            ctx.m.poke(a, b);
+        }
+    }
+    c.code_sticky = true;
+    super::mes::drain();
+    let act = ctx.execute(&c);
+    let msgs = super::mes::drain();
+    ctx.st.cases += 1;
+    ctx.st.nontrivial += 1;
+    let readable = |a: u32, n: u32| {
+        (0..n).all(|k| {
+            let x = a as u64 + k as u64;
+            x <= 0xffffff && mapped(x as u32)
+        })
+    };
+    let ok = readable(arg, 12) && readable(buf, len);
+    let mut verdict = None;
+    if ok {
+        let want = format!("stdout:{}", String::from_utf8_lossy(&text));
+        if !matches!(act, crate::hv::e1::Actual::Ok(_)) || msgs != vec![want.clone()] {
+            verdict = Some(format!("write of {} accessible bytes at {:06x} (argument block {:06x}): expected the message {:?}, got {:?} / {:?}", len, buf, arg, want, act, msgs));
+        }
+    } else if !matches!(act, crate::hv::e1::Actual::Err(_)) || !msgs.is_empty() {
+        verdict = Some(format!("write of {} bytes at {:x} (argument block {:x}) reads at least one inaccessible address: the read must fail with an access error and nothing may be emitted, got {:?} / {:?}", len, buf, arg, act, msgs));
+    }
+    ctx.m.restore();
+    verdict
+}
+
 fn c09_units(tier: Tier) -> Vec<Unit> {
     let mut units = Vec::new();
+    // ---- an instruction fetch is a read like any other: it returns what was stored last
+    units.push(super::xseq::code_rewrite_unit());
+    // ---- reads issued by the system-call gate are CPU reads like any other
+    units.push(Unit::new(
+        "system-call-reads",
+        1,
+        "TRAPA #0 write (ER0 = 104) with a text of 1-6 bytes that starts 4 bytes below .. 1 byte above the end of every region (vector area, DRAM, both register blocks), inside every hole, and at aliases of DRAM above 2^24: the call succeeds and emits the text exactly when every byte of it is accessible; otherwise execution stops with an error and nothing is emitted; the same for the argument block itself straddling a region end",
+        |ctx, _| {
+            super::mes::ensure_socket(ctx);
+            let ends: [u32; 4] = [0x000100, 0x600000, 0xfee100, 0xffffea];
+            let mut bufs: Vec<u32> = Vec::new();
+            for e in ends {
+                for d in -4i32..=1 {
+                    bufs.push(e.wrapping_add(d as u32));
+                }
+            }
+            bufs.extend([0x200000u32, 0x3fffff, 0x3ffffe, 0xfedfff, 0xffbf1e, 0xffbf1f, 0xfffff0, 0xffffff, 0x0148_0000, 0x0141_0000, 0xff41_0000, 0x015f_fffe, 0x0100_0000]);
+            let run_one = |ctx: &mut Ctx, arg: u32, buf: u32, len: u32| {
+                if let Some(m) = syscall_read_case(ctx, arg, buf, len) {
+                    ctx.custom_violation("c09", m, json!({"op": "syscall_read", "arg": format!("{:x}", arg), "buf": format!("{:x}", buf), "len": len}), json!(null), json!(null));
+                }
+            };
+            for &buf in bufs.iter() {
+                for len in 1..=6u32 {
+                    run_one(ctx, 0xffe900, buf, len);
+                }
+            }
+            // the argument block itself at the region ends (text in on-chip RAM)
+            for e in ends {
+                for d in -13i32..=1 {
+                    run_one(ctx, e.wrapping_add(d as u32), 0xffea00, 3);
+                }
+            }
+            for arg in [0x200000u32, 0x0141_0000, 0xff41_0000] {
+                run_one(ctx, arg, 0xffea00, 3);
+            }
+        },
+    ));
     units.push(Unit::new(
         "classify-2^24",
         256,
@@ -1134,6 +1218,20 @@ pub fn replay_c09reg(ctx: &mut Ctx, case: &Value) -> bool {
 
 /// replay handler for engine "c09"
 pub fn replay_c09(ctx: &mut Ctx, case: &Value) -> bool {
+    if case["op"].as_str() == Some("syscall_read") {
+        super::mes::ensure_socket(ctx);
+        let h = |k: &str| u32::from_str_radix(case[k].as_str().unwrap_or("0"), 16).unwrap_or(0);
+        return match syscall_read_case(ctx, h("arg"), h("buf"), case["len"].as_u64().unwrap_or(1) as u32) {
+            Some(m) => {
+                println!("{}", m);
+                false
+            }
+            None => {
+                println!("the system call's reads behave as the address map says");
+                true
+            }
+        };
+    }
     let addr = u32::from_str_radix(case["addr"].as_str().unwrap_or("0"), 16).unwrap_or(0);
     let before = ctx.st.violations_total;
     if case["op"] == "loaded" {
